@@ -623,3 +623,124 @@ func hasComparison(fn *ssa.Function, ops string, xp, yp valPred) bool {
 	}
 	return false
 }
+
+// ---------- must-follow (completeness) rules ----------
+//
+// The path rules above say "X happens only if G held". The rules here say the
+// converse: once a trigger was passed — an instruction, or the edge of a test —
+// every way on passes an effect before the function is left or control comes
+// back round a loop to (a dominator of) the trigger. They decide that an
+// essential action is neither missing nor skipped on some path.
+
+// followsOnAllPaths walks from instruction index idx of block b. okExit says
+// which function exits need no effect (an error return, say).
+func followsOnAllPaths(b *ssa.BasicBlock, idx int, origin *ssa.BasicBlock, isEffect func(ssa.Instruction) bool, okExit func(ssa.Instruction) bool) (bool, ssa.Instruction) {
+	seen := map[*ssa.BasicBlock]bool{}
+	var walk func(x *ssa.BasicBlock, from int, first bool) (bool, ssa.Instruction)
+	walk = func(x *ssa.BasicBlock, from int, first bool) (bool, ssa.Instruction) {
+		if !first {
+			if x.Dominates(origin) {
+				// round a loop (or back at the trigger) without the effect
+				return false, x.Instrs[0]
+			}
+			if seen[x] {
+				return true, nil
+			}
+			seen[x] = true
+		}
+		for i := from; i < len(x.Instrs); i++ {
+			if isEffect(x.Instrs[i]) {
+				return true, nil
+			}
+		}
+		last := x.Instrs[len(x.Instrs)-1]
+		if len(x.Succs) == 0 {
+			if _, isPanic := last.(*ssa.Panic); isPanic {
+				return true, nil
+			}
+			if okExit != nil && okExit(last) {
+				return true, nil
+			}
+			return false, last
+		}
+		for _, s := range x.Succs {
+			if ok, at := walk(s, 0, false); !ok {
+				return false, at
+			}
+		}
+		return true, nil
+	}
+	return walk(b, idx, true)
+}
+
+// errorExit: a return whose error result is not the constant nil.
+func errorExit(x ssa.Instruction) bool {
+	r, ok := x.(*ssa.Return)
+	if !ok || len(r.Results) == 0 {
+		return false
+	}
+	v := r.Results[len(r.Results)-1]
+	return isErrorType(v.Type()) && !isNilConst(v)
+}
+
+// mustFollow: after every instruction matching trig, an instruction matching eff follows on all paths.
+func (c *Ctx) mustFollow(rule string, fn *ssa.Function, trigDesc string, trig func(ssa.Instruction) bool, effDesc string, eff func(ssa.Instruction) bool, okExit func(ssa.Instruction) bool, req string) int {
+	c.saw(fnName(fn))
+	n := 0
+	for _, b := range fn.Blocks {
+		for i, ins := range b.Instrs {
+			if !trig(ins) {
+				continue
+			}
+			n++
+			ok, at := followsOnAllPaths(b, i+1, b, eff, okExit)
+			construct := fmt.Sprintf("%s after %s in %s", effDesc, trigDesc, fnName(fn))
+			if n > 1 {
+				construct += fmt.Sprintf(" #%d", n)
+			}
+			detail := ""
+			if !ok && at != nil {
+				detail = "a path from " + c.P.instrPos(ins) + " reaches " + c.P.instrPos(at) + " without it"
+			}
+			c.Check(ok, rule, construct, req, c.P.instrPos(ins), detail)
+		}
+	}
+	if n == 0 {
+		c.Undec(rule, trigDesc+" in "+fnName(fn), req, c.P.pos(fn.Pos()), "trigger not found in this function")
+	}
+	return n
+}
+
+// mustFollowEdge: the same with the edge of a test as trigger (match is given the condition and the edge's truth).
+func (c *Ctx) mustFollowEdge(rule string, fn *ssa.Function, trigDesc string, match func(cond ssa.Value, pos bool) bool, effDesc string, eff func(ssa.Instruction) bool, okExit func(ssa.Instruction) bool, req string) int {
+	c.saw(fnName(fn))
+	n := 0
+	for _, b := range fn.Blocks {
+		iff, ok := b.Instrs[len(b.Instrs)-1].(*ssa.If)
+		if !ok {
+			continue
+		}
+		for si := 0; si < 2; si++ {
+			cond, pos := ifCond(iff, si == 0)
+			if !match(cond, pos) {
+				continue
+			}
+			n++
+			okF, at := followsOnAllPaths(b.Succs[si], 0, b, eff, okExit)
+			// the successor itself is not "back at the trigger"
+			construct := fmt.Sprintf("%s when %s in %s", effDesc, trigDesc, fnName(fn))
+			if n > 1 {
+				construct += fmt.Sprintf(" #%d", n)
+			}
+			detail := ""
+			if !okF && at != nil {
+				detail = "a path from the test at " + c.P.instrPos(iff) + " reaches " + c.P.instrPos(at) + " without it"
+			}
+			c.Check(okF, rule, construct, req, c.P.instrPos(iff), detail)
+		}
+	}
+	if n == 0 {
+		c.Undec(rule, "test "+trigDesc+" in "+fnName(fn), req, c.P.pos(fn.Pos()), "test not found in this function")
+	}
+	return n
+}
